@@ -1646,3 +1646,90 @@ Proof.
   - destruct (read_full fs (of_string "/w/root") true (-2)) as [[[s' c']|e]|] eqn:E; try (vm_compute in E; discriminate E).
     vm_compute in E. inversion E; subst s' c'. eexists. split; reflexivity.
 Qed.
+
+(* ================================================================================================== *)
+(* added from Properties/C05_add.v, job pj_fix (2026-10-01)                                   *)
+(* ================================================================================================== *)
+(* C05 (addition): which side conditions of C05_text_direct_value are needed for the VALUES.  Findings only (machine checked
+   by evaluation); the weaker corollary C05_text_direct_value_weak is NOT proved here, see the note at the end.
+   To be appended to Properties/C05.v. *)
+From Coq Require Import String.
+From Coq Require Import NArith ZArith List Bool Permutation.
+From DictIO Require Import Chars Str Value Scalar KeyPath SDict Layout Lexer TokParser Reader Expr Eval
+     E2ESpec MiscSpec EvalSpec FlatSpec IndexSpec EvalProofs E2EHoles E2EKeyTok JsonNativeExpr RefTextProofs FlatEngine
+     FlatIndexProofs FlatParseProofs.
+Import ListNotations.
+
+Definition c05w_read (p : pdoc) (c : Z) : option (list (key * tree) * Z) :=
+  match read_full [(of_string "/w/root", FNative (render_pdoc p))] (of_string "/w/root") true c with
+  | Some (Ok (s, k)) => Some (sd_data s, k)
+  | _ => None
+  end.
+
+(* (1) the KEY half of pdoc_plain (simple_key of every top-level name) IS needed for the values: the name 7 is read back as
+   the integer key 7, the entry is not found under the string key, and the expression "$7+1" that refers to it stays
+   unresolved although the document denotes 2 for it.  Same on the library (dictIO 0.4.1: DictReader.read of the two
+   lines  7 1;  a "$7+1";  returns {7: 1, 'a': '$7+1'}). *)
+Example C05_text_direct_value_key_finding :
+  let p : pdoc := [PDyn (of_string "7") (FInt 1); PDyn (of_string "a") (FExp 0 g_tight (AAdd (ex_v "7") (ANum 1)))] in
+  pdoc_ok p /\ pdoc_plain p = false /\ nodupb (qexps p) = true /\ total_doc (psem p) = true /\
+  render_pdoc p = of_string "7 1;
+a ""$7+1"";
+" /\
+  denote (psem p) (of_string "7") = Some 1%Z /\ denote (psem p) (of_string "a") = Some 2%Z /\
+  c05w_read p (-1) = Some ([(KI 7, Leaf (SInt 1)); (KS (of_string "a"), Leaf (SStr (of_string "$7+1")))], 0%Z).
+Proof.
+  intros p. split; [unfold p; pdoc_ok_tac|]. repeat split; vm_compute; reflexivity.
+Qed.
+
+(* (2) the LEAF half of pdoc_plain (static leaves written bare and read back as themselves) is not needed for the values of
+   the DYNAMIC entries in these instances, but it is needed for two other conclusions of the theorem:
+   - a static string that needs quotes draws an id of the one counter before the expressions: the values are the direct
+     ones (a = 5, b = 6), the counter the read ends with is 2, not  cafter (cafter c #quoted) #bare = 1;
+   - a static string that the classifier re-types ("5") comes back as the integer 5: the conclusion about static entries
+     (alookup (KS x) = Some t) fails, the dynamic values are the direct ones. *)
+Example C05_text_direct_value_static_leaf_finding :
+  let pq : pdoc := [PStat (of_string "s") (Leaf (SStr (of_string "a b"))); PDyn (of_string "y") (FInt 4);
+                    PDyn (of_string "a") (FExp 0 g_tight ex_t_y1); PDyn (of_string "b") (FExp 1 g_tight (AAdd (ex_v "a") (ANum 1)))] in
+  let ps : pdoc := [PStat (of_string "s") (Leaf (SStr (of_string "5"))); PDyn (of_string "y") (FInt 4);
+                    PDyn (of_string "a") (FExp 0 g_tight ex_t_y1)] in
+  (pdoc_ok pq /\ pdoc_plain pq = false /\ nodupb (qexps pq) = true /\ total_doc (psem pq) = true /\
+   denote (psem pq) (of_string "a") = Some 5%Z /\ denote (psem pq) (of_string "b") = Some 6%Z /\
+   cafter (cafter (-1) (length (qexps pq))) (length (bexps pq)) = 1%Z /\
+   c05w_read pq (-1) = Some ([(KS (of_string "s"), Leaf (SStr (of_string "a b"))); (KS (of_string "y"), Leaf (SInt 4));
+                              (KS (of_string "a"), Leaf (SInt 5)); (KS (of_string "b"), Leaf (SInt 6))], 2%Z)) /\
+  (pdoc_ok ps /\ pdoc_plain ps = false /\ total_doc (psem ps) = true /\ denote (psem ps) (of_string "a") = Some 5%Z /\
+   c05w_read ps (-1) = Some ([(KS (of_string "s"), Leaf (SInt 5)); (KS (of_string "y"), Leaf (SInt 4));
+                              (KS (of_string "a"), Leaf (SInt 5))], 0%Z)).
+Proof.
+  intros pq ps. split.
+  - split; [unfold pq, ex_t_y1; pdoc_ok_tac|]. repeat split; vm_compute; reflexivity.
+  - split; [unfold ps, ex_t_y1; pdoc_ok_tac|]. repeat split; vm_compute; reflexivity.
+Qed.
+
+(* (3) nodupb (qexps p) is not needed for ANY conclusion of the theorem in this instance: three quoted expressions, two with
+   the same text, the third referring to both.  The parser's SDict differs from pparsed (C05_parser_duplicate_expression_finding:
+   both leaves hold the first placeholder, the second table entry is never referred to), but every value is the direct one,
+   the keys are the names and the counter is  cafter (cafter c #quoted) #bare.  Same on the library ({'y': 4, 'a': 5, 'b': 5,
+   'c': 10}).  No counterexample to the theorem without nodupb was found. *)
+Example C05_text_direct_value_duplicates_evidence :
+  let p : pdoc := [PDyn (of_string "y") (FInt 4); PDyn (of_string "a") (FExp 0 g_tight ex_t_y1);
+                   PDyn (of_string "b") (FExp 1 g_tight ex_t_y1); PDyn (of_string "c") (FExp 2 g_tight (AAdd (ex_v "b") (ex_v "a")))] in
+  pdoc_ok p /\ pdoc_plain p = true /\ nodupb (qexps p) = false /\ total_doc (psem p) = true /\
+  denote (psem p) (of_string "a") = Some 5%Z /\ denote (psem p) (of_string "b") = Some 5%Z /\ denote (psem p) (of_string "c") = Some 10%Z /\
+  cafter (cafter (-1) (length (qexps p))) (length (bexps p)) = 2%Z /\
+  c05w_read p (-1) = Some ([(KS (of_string "y"), Leaf (SInt 4)); (KS (of_string "a"), Leaf (SInt 5));
+                            (KS (of_string "b"), Leaf (SInt 5)); (KS (of_string "c"), Leaf (SInt 10))], 2%Z).
+Proof.
+  intros p. split; [unfold p, ex_t_y1; pdoc_ok_tac|]. repeat split; vm_compute; reflexivity.
+Qed.
+
+(* NOT PROVED (C05_text_direct_value_weak):
+     the statement of C05_text_direct_value without  nodupb (qexps p) = true  (all five conclusions), and with pdoc_plain
+     weakened to its key half for the fourth conclusion (the values of the dynamic entries).
+   Why it is not a corollary: text_direct_value rewrites the parse of the text to  pparsed c p  (parser_delivers_psdict) and
+   applies the evaluation theorem pdoc_value_ord to the document  pnumbered c p.  With duplicate texts the parse is not
+   pparsed of any pdoc_ok document (pdoc_ok asks for pairwise distinct ids, the parse has two leaves with one id and a table
+   entry nobody refers to); with a quoted static literal the ids start behind the literals.  Both need the evaluation
+   theorem (Proofs/FlatIndexProofs.v / FlatEngine.v) for SDicts whose leaves share table entries resp. whose table has
+   unreferenced entries, and the lexer / parser sections of Proofs/FlatParseProofs.v for sources with repeated texts. *)
